@@ -67,6 +67,7 @@ type dCond struct {
 	name   string
 	params []dParam
 	expr   []string // expression tokens (texts), joined without separator
+	closeSameLine bool // the closing brace stands on the last expression line
 }
 
 type dDoc struct {
@@ -75,6 +76,7 @@ type dDoc struct {
 	types  []dType
 	conds  []dCond
 	full   bool // layout: every optional blank present, wider indentation
+	style  int  // 2: exactly the printer's layout (blank line before types and conditions, final line break)
 }
 
 type adder interface {
@@ -92,6 +94,7 @@ type tb struct {
 	col   int
 	pos   int
 	full  bool
+	style int
 	names map[string]antlr.Token // name tokens by role ("type:0", "rel:0:1", "cond:0", "param:0:1")
 }
 
@@ -126,12 +129,17 @@ func (b *tb) optws(c adder) {
 
 // nl: a line break with the indentation of the next line; comment puts a
 // comment line in between (natively "# c", which the pre-pass blanks).
-func (b *tb) nl(c adder, indent int, comment bool) {
+func (b *tb) nl(c adder, indent int, comment bool) { b.nlx(c, indent, comment, false) }
+
+func (b *tb) nlx(c adder, indent int, comment bool, blank bool) {
 	ind := strings.Repeat(" ", indent)
 	if b.full {
 		ind += ind
 	}
 	text := "\n" + ind
+	if b.style == 2 && indent == 0 && blank {
+		text = "\n\n"
+	}
 	native := text
 	if comment {
 		text = "\n\n" + ind
@@ -155,10 +163,8 @@ func (b *tb) identifier(parent antlr.ParserRuleContext, name string) *parser.Ide
 	c := parser.NewIdentifierContext(b.p, parent, 0)
 	from := len(b.toks)
 	tt := parser.OpenFGAParserIDENTIFIER
-	if s, ok := interface{}(name).(string); ok {
-		if k, isKw := verifKeywordTokens[s]; isKw && !zzverif.Symbolic() {
-			tt = k
-		}
+	if k, isKw := verifKeywordTokens[name]; isKw {
+		tt = k
 	}
 	b.add(c, tt, name)
 	b.span(c, from)
@@ -368,7 +374,7 @@ func (b *tb) relationDecl(parent antlr.ParserRuleContext, r dRel, key string) *p
 func (b *tb) typeDef(parent antlr.ParserRuleContext, t dType, idx int) *parser.TypeDefContext {
 	c := parser.NewTypeDefContext(b.p, parent, 0)
 	from := len(b.toks)
-	b.nl(c, 0, t.comment)
+	b.nlx(c, 0, t.comment, true)
 	if idx == 0 {
 		// the blank line after the header belongs to this NEWLINE token
 		_ = idx
@@ -406,7 +412,7 @@ func keyOf(kind string, i, j int) string {
 func (b *tb) condition(parent antlr.ParserRuleContext, cd dCond, idx int) *parser.ConditionContext {
 	c := parser.NewConditionContext(b.p, parent, 0)
 	from := len(b.toks)
-	b.nl(c, 0, false)
+	b.nlx(c, 0, false, true)
 	b.add(c, parser.OpenFGAParserCONDITION, "condition")
 	b.ws(c)
 	cn := parser.NewConditionNameContext(b.p, c, 0)
@@ -467,8 +473,12 @@ func (b *tb) condition(parent antlr.ParserRuleContext, cd dCond, idx int) *parse
 		}
 		b.add(ce, tt, piece)
 	}
-	// the expression rule also swallows the line break in front of the closing brace
-	b.nl(ce, 0, false)
+	// the expression rule also swallows the line break (or the blank) in front of the closing brace
+	if cd.closeSameLine {
+		b.add(ce, parser.OpenFGAParserWHITESPACE, " ")
+	} else {
+		b.nl(ce, 0, false)
+	}
 	b.span(ce, efrom)
 	c.AddChild(ce)
 	b.add(c, parser.OpenFGAParserRBRACE, "}")
@@ -479,7 +489,7 @@ func (b *tb) condition(parent antlr.ParserRuleContext, cd dCond, idx int) *parse
 // docTree builds the parse tree of d and returns it with the builder (tokens,
 // text, name tokens).
 func docTree(d *dDoc) (*parser.MainContext, *tb) {
-	b := &tb{p: parser.NewOpenFGAParser(nil), pair: &antlr.TokenSourceCharStreamPair{}, line: 1, full: d.full, names: map[string]antlr.Token{}}
+	b := &tb{p: parser.NewOpenFGAParser(nil), pair: &antlr.TokenSourceCharStreamPair{}, line: 1, full: d.full, style: d.style, names: map[string]antlr.Token{}}
 	m := parser.NewMainContext(b.p, nil, 0)
 	if d.module == "" {
 		h := parser.NewModelHeaderContext(b.p, m, 0)
@@ -515,6 +525,9 @@ func docTree(d *dDoc) (*parser.MainContext, *tb) {
 	b.span(cs, cfrom)
 	m.AddChild(cs)
 	b.span(m, 0)
+	if d.style == 2 {
+		b.text = append(b.text, "\n")
+	}
 	return m, b
 }
 
@@ -549,7 +562,7 @@ func semExpr(e *dExpr, restr *[]*openfgav1.RelationReference) *openfgav1.Userset
 			}
 			*restr = append(*restr, ref)
 		}
-		return &openfgav1.Userset{Userset: &openfgav1.Userset_This{}}
+		return verifThis()
 	case 1:
 		return verifComputed(e.name)
 	case 2:
@@ -620,4 +633,10 @@ func verifSameRestrictions(a, b []*openfgav1.RelationReference) bool {
 		}
 	}
 	return true
+}
+
+// VerifWarmupParser runs once per executor worker: the parser's static data
+// (the deserialised ATN) is built here and shared read-only by all paths.
+func VerifWarmupParser() {
+	parser.NewOpenFGAParser(nil)
 }
